@@ -181,6 +181,8 @@ structure PSys where
   rgv : List (Grant × VGhost) := []         -- ghost records of the released grants
   cmts : List (Nat × Nat) := []             -- (term, index) of every leader commit
   rd : RdState := {}                        -- read-index bookkeeping
+  ecfgs : List (Nat × Cfg) := []            -- ghost: (term, configuration the election of that term was decided under)
+  ccfgs : List ((Nat × Nat) × Cfg) := []    -- ghost: configuration every leader commit was decided under (same order as `cmts`)
 
 def init : PSys := { nodes := fun _ => {}, llog := fun _ => [], elected := [] }
 
@@ -228,6 +230,20 @@ def majOf (vs q : List Nat) : Bool := decide (vs.length / 2 + 1 ≤ countIn vs q
 `MajorityConfig::vote_result` / `committed_index`) -/
 def Cfg.isQuorum (c : Cfg) (q : List Nat) : Bool :=
   (c.incoming.isEmpty || majOf c.incoming q) && (c.outgoing.isEmpty || majOf c.outgoing q)
+
+/-- a decidable sufficient condition for "every majority of `h1` meets every majority of `h2`":
+both voter lists are duplicate-free and non-empty and the two majorities together are larger than
+the union (holds for equal lists, lists that differ by one voter, and the halves a joint
+configuration shares with its predecessor / successor) -/
+def halfMeets (h1 h2 : List Nat) : Bool :=
+  !h1.isEmpty && !h2.isEmpty && decide h1.Nodup && decide h2.Nodup &&
+    decide (h1.length + (h2.filter (fun v => !h1.contains v)).length < (h1.length / 2 + 1) + (h2.length / 2 + 1))
+
+/-- a decidable sufficient condition for "every deciding quorum of `c1` meets every deciding quorum
+of `c2`": some half of `c1` and some half of `c2` always meet -/
+def adjOk (c1 c2 : Cfg) : Bool :=
+  halfMeets c1.incoming c2.incoming || halfMeets c1.incoming c2.outgoing ||
+  halfMeets c1.outgoing c2.incoming || halfMeets c1.outgoing c2.outgoing
 
 /-! ### events -/
 
@@ -300,6 +316,11 @@ heartbeat confirmation was generated after `rid` was registered -/
 def rdQuorum (s : PSys) (cfg : Cfg) (i term rid : Nat) : Bool :=
   cfg.isQuorum (i :: ((s.rd.hbacks.filter (fun h => h.rid = rid ∧ h.term = term)).map (·.frm)))
 
+/-- every leader commit that existed when the request was issued was decided under a configuration
+whose quorums meet those of `cfg`, or is of a term not beyond `term` anyway -/
+def rdCfgOk (s : PSys) (cfg : Cfg) (term ncm : Nat) : Bool :=
+  (s.ccfgs.drop (s.ccfgs.length - ncm)).all (fun p => adjOk p.2 cfg || decide (p.1.1 ≤ term))
+
 /-- the read-index layer: only `s.rd` changes -/
 def applyRead (s : PSys) : REvent → Except String RdState
   | .issue i rid =>
@@ -320,7 +341,8 @@ def applyRead (s : PSys) : REvent → Except String RdState
     let n := s.nodes i
     match s.rd.issued.find? (fun r => r.rid = rid) with
     | some r =>
-      if n.up ∧ n.role = 2 ∧ s.rd.started.contains ⟨rid, i, n.term, idx⟩ ∧ rdQuorum s cfg i n.term rid then
+      if n.up ∧ n.role = 2 ∧ s.rd.started.contains ⟨rid, i, n.term, idx⟩ ∧ rdQuorum s cfg i n.term rid ∧
+          rdCfgOk s cfg n.term r.ncm then
         .ok { s.rd with resps := ⟨rid, r.node, idx⟩ :: s.rd.resps }
       else .error "read resp: not the leader that registered the request with this index, or leadership not confirmed by a quorum since"
     | none => .error "read resp: unknown request"
@@ -329,7 +351,8 @@ def applyRead (s : PSys) : REvent → Except String RdState
     match s.rd.issued.find? (fun r => r.rid = rid) with
     | some r =>
       if n.up ∧ r.node = j ∧ (s.rd.resps.contains ⟨rid, j, idx⟩ ∨
-          (n.role = 2 ∧ s.rd.started.contains ⟨rid, j, n.term, idx⟩ ∧ rdQuorum s cfg j n.term rid)) then
+          (n.role = 2 ∧ s.rd.started.contains ⟨rid, j, n.term, idx⟩ ∧ rdQuorum s cfg j n.term rid ∧
+            rdCfgOk s cfg n.term r.ncm)) then
         .ok { s.rd with done := ⟨rid, j, idx⟩ :: s.rd.done }
       else .error "read state: not on the node where the request was issued, or neither a released response nor a confirmed local read"
     | none => .error "read state: unknown request"
@@ -407,8 +430,14 @@ def applyEvent (s : PSys) : Event → Except String PSys
         q.all (fun v => s.grants.contains ⟨n.term, v, i⟩) ∧
         -- ghost side of the same quorum: every counted grant was decided before any leader of this
         -- term existed, against the (last term, last index) of the log the winner holds now
-        q.all (fun v => s.rgv.any (fun p => p.1 = ⟨n.term, v, i⟩ ∧ p.2.early ∧ p.2.clt = lastTerm n.log ∧ p.2.cli = n.log.length)) then
-      ok { s with nodes := upd s.nodes i { n with role := 2 }, llog := updT s.llog n.term n.log, elog := updT s.elog n.term n.log, elected := (n.term, i) :: s.elected }
+        q.all (fun v => s.rgv.any (fun p => p.1 = ⟨n.term, v, i⟩ ∧ p.2.early ∧ p.2.clt = lastTerm n.log ∧ p.2.cli = n.log.length)) ∧
+        -- configurations: every election of this term so far was decided under a configuration whose
+        -- quorums meet ours; every earlier-term leader commit was decided under such a configuration,
+        -- or else the winner's log demonstrably holds the committed prefix
+        adjOk cfg cfg ∧
+        s.ecfgs.all (fun p => p.1 ≠ n.term ∨ adjOk cfg p.2) ∧
+        s.ccfgs.all (fun p => n.term ≤ p.1.1 ∨ adjOk p.2 cfg ∨ n.log.take p.1.2 = (s.llog p.1.1).take p.1.2) then
+      ok { s with nodes := upd s.nodes i { n with role := 2 }, llog := updT s.llog n.term n.log, elog := updT s.elog n.term n.log, elected := (n.term, i) :: s.elected, ecfgs := (n.term, cfg) :: s.ecfgs }
     else .error "win: not a candidate with a quorum of released grants (its own durable self-vote included) decided against the log it holds"
   | .stepDown i =>
     let n := s.nodes i
@@ -450,8 +479,12 @@ def applyEvent (s : PSys) : Event → Except String PSys
   | .commitLeader i c cfg q =>
     let n := s.nodes i
     if n.up ∧ n.role = 2 ∧ n.commit < c ∧ c ≤ n.log.length ∧ termAt n.log c = n.term ∧ cfg.isQuorum q ∧
-        q.all (fun v => s.acks.any (fun a => a.term = n.term ∧ a.frm = v ∧ c ≤ a.idx)) then
-      ok { s with nodes := upd s.nodes i { n with commit := c }, cmts := (n.term, c) :: s.cmts }
+        q.all (fun v => s.acks.any (fun a => a.term = n.term ∧ a.frm = v ∧ c ≤ a.idx)) ∧
+        -- every later-term election so far was decided under a configuration whose quorums meet
+        -- ours, or else its leader was demonstrably elected with the prefix committed now
+        adjOk cfg cfg ∧
+        s.ecfgs.all (fun p => p.1 ≤ n.term ∨ adjOk cfg p.2 ∨ (s.elog p.1).take c = n.log.take c) then
+      ok { s with nodes := upd s.nodes i { n with commit := c }, cmts := (n.term, c) :: s.cmts, ccfgs := ((n.term, c), cfg) :: s.ccfgs }
     else .error "commitLeader: not an own-term entry acknowledged (durably) by a quorum"
   | .commitApp i c m =>
     let n := s.nodes i
